@@ -94,6 +94,100 @@ func gatherCase(w *gen.Writer, r *gen.Rand) {
 	gatherRun(w, d, "gather")
 }
 
+// ---- gather on nested match trees ----
+
+type treeDetail struct {
+	Name []byte             `json:"name"`
+	Root index.VerifC02Node `json:"root"`
+}
+
+func genNode(r *gen.Rand, depth int, fnChance int) index.VerifC02Node {
+	n := index.VerifC02Node{KnownSet: r.Chance(9, 10), Known: r.Chance(4, 5)}
+	if depth <= 0 || r.Chance(1, 3) {
+		if r.Chance(1, 7) {
+			n.Op = "other"
+			return n
+		}
+		n.Op, n.Kind = "atom", r.Intn(4)
+		n.Cands = genCands(r, r.Range(0, 5), gen.Pick(r, []int{6, 20, 20, 60}), fnChance)
+		return n
+	}
+	switch r.Intn(10) {
+	case 0, 1, 2:
+		n.Op = "and"
+	case 3, 4:
+		n.Op = "or"
+	case 5:
+		n.Op = "andline"
+	case 6:
+		n.Op = gen.Pick(r, []string{"not", "novisit", "filename"})
+		n.Ch = []index.VerifC02Node{genNode(r, depth-1, fnChance)}
+		return n
+	case 7, 8:
+		n.Op = "boost"
+		n.Ch = []index.VerifC02Node{genNode(r, depth-1, fnChance)}
+		return n
+	default:
+		n.Op = "symsubstr"
+		c := index.VerifC02Node{Op: "atom", Kind: 0, KnownSet: r.Bool(), Known: r.Bool(), Cands: genCands(r, r.Range(0, 5), 20, 0)}
+		n.Ch = []index.VerifC02Node{c}
+		return n
+	}
+	for i, k := 0, r.Range(0, 3); i < k; i++ {
+		n.Ch = append(n.Ch, genNode(r, depth-1, fnChance))
+	}
+	return n
+}
+
+func showNode(n index.VerifC02Node) string {
+	switch n.Op {
+	case "atom":
+		cs := showHookCands(n.Cands)
+		if cs == "-" {
+			cs = ""
+		}
+		return fmt.Sprintf("a%d[%s]", n.Kind, cs)
+	case "other":
+		return "x"
+	case "and", "or", "andline":
+		var parts []string
+		for _, c := range n.Ch {
+			k := "0"
+			if c.KnownSet && c.Known {
+				k = "1"
+			}
+			parts = append(parts, k+showNode(c))
+		}
+		return map[string]string{"and": "A", "or": "O", "andline": "L"}[n.Op] + "(" + strings.Join(parts, ";") + ")"
+	}
+	return map[string]string{"not": "N", "novisit": "V", "filename": "F", "boost": "B", "symsubstr": "S"}[n.Op] + showNode(n.Ch[0])
+}
+
+func countAtoms(n index.VerifC02Node) int {
+	c := 0
+	if n.Op == "atom" {
+		c = len(n.Cands)
+	}
+	for _, ch := range n.Ch {
+		c += countAtoms(ch)
+	}
+	return c
+}
+
+func treeRun(w *gen.Writer, d treeDetail, class string) {
+	in := fmt.Sprintf("gathert %s %s", gen.Hex(d.Name), showNode(d.Root))
+	got := index.VerifC02GatherTree(d.Name, d.Root)
+	w.Emit(gen.Case{In: in, Impl: showHookCands(got), Class: class, Nontrivial: len(got) >= 2 && countAtoms(d.Root) > len(got), Detail: gen.Detail(struct {
+		Tree treeDetail `json:"tree"`
+	}{d})})
+}
+
+func treeCase(w *gen.Writer, r *gen.Rand) {
+	d := treeDetail{Name: []byte(e2lib.GenName(r, r.Intn(3), r.Bool()))}
+	d.Root = genNode(r, 3, gen.Pick(r, []int{0, 0, 2, 5}))
+	treeRun(w, d, "gather-tree")
+}
+
 // ---- breakMatchesOnNewlines ----
 
 type breakDetail struct {
@@ -295,6 +389,7 @@ func runEntry(w *gen.Writer, path string, class string) {
 		Gather *gatherDetail `json:"gather"`
 		Break  *breakDetail  `json:"break"`
 		Rom    *romDetail    `json:"rom"`
+		Tree   *treeDetail   `json:"tree"`
 	}
 	if e.Case != nil { // replay file: the case's detail says what to re-run
 		var c struct {
@@ -324,6 +419,8 @@ func runEntry(w *gen.Writer, path string, class string) {
 		breakRun(w, *comp.Break, class)
 	case comp.Rom != nil:
 		romRun(w, *comp.Rom, class)
+	case comp.Tree != nil:
+		treeRun(w, *comp.Tree, class)
 	default:
 		panic(path + ": nothing to run")
 	}
@@ -368,4 +465,7 @@ func main() {
 		}
 	}
 	w.Count("e2e-files-reported", files)
+	for i, n := 0, f.N(1500, 40000); i < n; i++ {
+		treeCase(w, r)
+	}
 }
